@@ -862,9 +862,14 @@ impl<Upstream> ValidationContext<Upstream> {
                 return Ok((node, names));
             }
 
-            // Try to find the node in the cache.
+            // Try to find the node in the cache. An intermediate node
+            // (a name that is no zone cut) has no keys of its own: the
+            // walk down has to start from a node that can act as signer
+            // node, so keep looking further up.
             if let Some(node) = self.cache_lookup(&curr).await {
-                return Ok((node, names));
+                if !node.intermediate() {
+                    return Ok((node, names));
+                }
             }
 
             names.push_front(curr.clone());
